@@ -4,7 +4,8 @@ Tie: T + K.
   T  `translate` regenerates lean/PyrollModel/Gen/C06.lean from the working tree on every run: the hook formulas
      (out length, elongation, strain accumulation / reset, out t, x, sequence totals, disk element split), the root hook
      list of pyroll/core/__init__.py and the hand-over skeleton of unit/unit.py, hooks.py, disk_elements/*.py
-     (driver/translate/c06_skeleton.py).  lean/PyrollProps/C06.lean proves the property about these terms and about
+     (driver/translate/c06_skeleton.py), the class hierarchy with every `reevaluate_cache` body and the helper objects the
+     formulas read (driver/translate/c06_refresh.py).  lean/PyrollProps/C06.lean proves the property about these terms and about
      the hand-written model lean/PyrollModel/Handover.lean, whose assumptions about the source are compared with the
      generated skeleton (`skeleton_certificate`).
   K  `run`: (a) every generated formula, Float evaluation by the Lean driver vs the python function it came from;
@@ -12,20 +13,23 @@ Tie: T + K.
      unit tree of every really solved sequence (which root hooks have an implementation is observed, the values are
      identifiers) vs the public `__dict__` of every in / out profile of that tree - for a sequence solved twice
      (`H2`: `Handover.solveTwice` with the re-use policy the translator read from `init_solve`) the tree of the second solve;
-     (c') `Unit.init_solve` on histories of incoming profiles vs `Handover.initOut` (`I`); (d) the independent oracle below.
+     (c') `Unit.init_solve` on histories of incoming profiles vs `Handover.initOut` (`I`); (c'') the cache re-evaluation model
+     (`Refresh`): generated MROs vs `__mro__`, the effect list of `reevaluate_cache` per class vs what the call is SEEN to
+     do on real solved objects (`R`), and the state index of the roll value the disk elements read per solve and iteration
+     vs the recorded disk lengths / roll cache values of real (re-)solved passes (`S`); (d) the independent oracle below.
 
 The oracle (`check_tree`) is written from the property text and inspects only public attributes of solved units.
 """
 import math
 
-from ..translate import gen, c06_skeleton
+from ..translate import gen, c06_skeleton, c06_refresh
 from .. import core, stub
 from . import common  # noqa: F401  (silences the pyroll loggers)
 
 ID = "C06"
 LEAN_MODULES = ["PyrollProps.C06"]
 MODEL = "c06"
-MODEL_MODULES = ["PyrollModel.Gen.C06", "PyrollModel.HandoverGen", "PyrollModel.HandoverDriver"]
+MODEL_MODULES = ["PyrollModel.Gen.C06", "PyrollModel.HandoverGen", "PyrollModel.Refresh", "PyrollModel.HandoverDriver"]
 RULE = ("real pass sequences, built from a replayable spec and solved: 1-5 top-level units, flat or nested (depth <= 3), "
         "two-roll passes (6 groove families) and three-roll passes, transports (duration or length given, 18 % with two of "
         "length / duration / velocity given explicitly), cooling pipes, "
@@ -37,8 +41,13 @@ RULE = ("real pass sequences, built from a replayable spec and solved: 1-5 top-l
         "tree is compared with the Lean hand-over model; 15 % of the sequences (and every corpus layout) are solved a SECOND "
         "time, the same objects, on a changed billet (1-4 of temperature / density / heat capacity / material / length / "
         "strain / t changed, flow stress changed / dropped / added, 0-2 entries removed, 0-2 new entries, size +-1.5 %; in "
-        "12 % of them the first profile lacks the flow stress, so the first solve is aborted and the second is the retry): "
-        "oracle on the second solve and model `solveTwice` against it; `Unit.init_solve` itself on generated histories of "
+        "12 % of them the first profile lacks the flow stress, so the first solve is aborted and the second is the retry; "
+        "40 % of the second billets have ANOTHER size - 0.93 .. 1.05 of the nominal one -, 15 % another shape, and in 30 % "
+        "the caller re-configured units of the used line between the solves: roll gap x 0.7-1.4, roll speed, transport "
+        "duration / length; every corpus layout additionally on a 6 % smaller, pre-strained, later billet): "
+        "oracle on the second solve and model `solveTwice` against it; for every roll pass with disk elements the history "
+        "of what the disk elements read of the roll's hook cache, per solve and iteration, against the cache model "
+        "`Refresh.solves`; `Unit.init_solve` itself on generated histories of "
         "incoming profiles and out-profile edits against `Handover.initOut`; plus every generated formula x random environments. "
         "non-trivial = the sequence solved, has >= 2 units and a positive incoming length; distinct by the spec.")
 ASSUMPTIONS = [
@@ -51,6 +60,9 @@ ASSUMPTIONS = [
     "profiles (velocity; evaluated after the sub-units were solved) and root hooks owned only by a sub-class (velocity, "
     "filling ratios, width of the spreading model; copied downstream at the first solve call and not refreshed there) - "
     "are left out of the model/implementation comparison (counted in the evidence); they are not part of the statement",
+    "the cache model (Refresh) counts states, not values: `the value of state i` is what `reevaluate_cache` of iteration i "
+    "left in the cache; that two iterations are needed whenever the incoming state changed is a hypothesis (n + 2) of "
+    "`helper_value_of_this_solve`; the C3 linearisation is computed by the translator and compared with `__mro__` at run time",
 ]
 
 P = "roll_pass/hookimpls/profile.py"
@@ -100,8 +112,14 @@ def translate(ctx):
     if REUSE_BRANCH_REQUIRED and info["skeleton"].get("reuse") is None:
         ctx.tie_breaks.append("translator: Unit.init_solve has no `else:` branch handing the incoming state over to a "
                               "re-used out profile (required: REUSE_BRANCH_REQUIRED)")
+    # who re-evaluates which hook cache (class hierarchy, `reevaluate_cache` bodies, helper objects the formulas read)
+    idx = gen.hookimpl_index(sorted({rel for (_, rel, _) in SELECTION}))
+    formulas = {name: idx[(rel, fn)] for (name, rel, fn) in SELECTION if (rel, fn) in idx}
+    rtext, rinfo = c06_refresh.emit(core.REPO, ctx.tie_breaks, formulas)
+    extra += "\n" + rtext
     ctx.found = gen.emit_impl_module(ctx, ID, SELECTION, extra)
     ctx.skeleton = info
+    ctx.refresh = rinfo
 
 
 # ---------------------------------------------------------------------------------------------------------------
@@ -270,6 +288,50 @@ class RotatorCapture:
         return False
 
 
+class RefreshTrace:
+    """records, for every roll pass with disk elements, every solve of that object and in every iteration of it (at the
+    time the root hooks are evaluated, i.e. after `_solve_subunits` and `reevaluate_cache`): the length the first disk
+    element has cached (= what it read of `roll.contact_length`, divided by the count) and what the roll's cache holds
+    under `contact_length` then.  `store`: id(pass) -> {"unit": pass, "solves": [[(disk length, roll value), ...], ...]};
+    the store is shared between the solves of one case (the caches persist between them).
+    Transparent wrappers around `Unit.solve` / `Unit.get_root_hook_results`, removed on exit."""
+
+    def __init__(self, store):
+        self.store = store
+
+    def __enter__(self):
+        from pyroll.core import Unit, BaseRollPass
+        store = self.store
+        self.saved = None
+        if "solve" not in Unit.__dict__ or "get_root_hook_results" not in Unit.__dict__:
+            return self         # a tree under test that is organised differently: nothing is recorded
+        self.saved = (Unit.__dict__["solve"], Unit.__dict__["get_root_hook_results"])
+        o_solve, o_results = self.saved
+
+        def solve(u, in_profile):
+            if isinstance(u, BaseRollPass):
+                store.setdefault(id(u), {"unit": u, "solves": []})["solves"].append([])
+            return o_solve(u, in_profile)
+
+        def get_root_hook_results(u):
+            rec = store.get(id(u))
+            if rec is not None and rec["solves"]:
+                subs = u.subunits
+                roll = getattr(u, "roll", None)
+                rec["solves"][-1].append((subs[0].__cache__.get("length") if subs else None,
+                                          None if roll is None else roll.__cache__.get("contact_length")))
+            return o_results(u)
+        Unit.solve = solve
+        Unit.get_root_hook_results = get_root_hook_results
+        return self
+
+    def __exit__(self, *a):
+        from pyroll.core import Unit
+        if self.saved is not None:
+            Unit.solve, Unit.get_root_hook_results = self.saved
+        return False
+
+
 # ---------------------------------------------------------------------------------------------------------------
 # generators
 # ---------------------------------------------------------------------------------------------------------------
@@ -392,7 +454,7 @@ def gen_reads(rng, names):
 ADDED_NAMES = ["batch", "heat_number", "surface_temperature", "thermal_conductivity"]
 
 
-def gen_again(rng, spec_in, model, three):
+def gen_again(rng, spec_in, model, three, units=None):
     """the SAME sequence object is solved a second time on another billet: how the caller's second profile differs from
     the first - some values changed, some entries removed, some added (-> `build_second_profile`)"""
     ag = {"set": {}, "drop": []}
@@ -420,8 +482,33 @@ def gen_again(rng, spec_in, model, three):
             ag["drop"].append(k)
     for k in rng.sample(ADDED_NAMES, rng.choice([0, 1, 1, 2])):
         ag["set"][k] = rng.choice(["B-17", 3, 1200.5])
-    if rng.random() < 0.4:
-        ag["size"] = round(spec_in["size"] * rng.uniform(0.985, 1.015), 5)
+    r = rng.random()
+    if r < 0.2:
+        ag["size"] = round(spec_in["size"] * rng.uniform(0.985, 1.015), 5)      # the next billet of the same order
+    elif r < 0.6:
+        # ANOTHER billet: a height / width the line was not solved for before (everything a unit or one of its helper
+        # objects - the working roll - remembered of the first billet's geometry is out of date by several percent)
+        ag["size"] = round((60e-3 if three else 30e-3) * rng.uniform(0.93, 1.05), 5)
+    if rng.random() < 0.15:
+        kinds = [k for k in (["round", "square", "box"] if three else ["round", "square", "box", "diamond"])
+                 if k != spec_in["kind"]]
+        ag["kind"] = rng.choice(kinds)                                          # ... of another shape
+    if units and rng.random() < 0.3:
+        # the caller re-configures the used line between the two solves (roll gap, roll speed, transport duration /
+        # length): `[index in the flat unit list, attribute, value or factor]`
+        flat = _flat(units)
+        cand = []
+        for i, u in enumerate(flat):
+            if u["type"] == "pass":
+                cand.append([i, "rotational_frequency", rng.choice([0.5, 2, round(rng.uniform(0.3, 3), 3)])])
+                if not (u.get("three") and u["groove"] != "oval"):
+                    cand.append([i, "gap*", round(rng.choice([rng.uniform(0.7, 0.9), rng.uniform(1.1, 1.4)]), 3)])
+            elif u["type"] in ("transport", "pipe"):
+                for k in ("duration", "length"):
+                    if k in u:
+                        cand.append([i, k, rng.choice([0.25, 3, round(rng.uniform(0.1, 6), 3)])])
+        if cand:
+            ag["reconf"] = sorted(rng.sample(cand, min(len(cand), rng.choice([1, 1, 2, 3]))))
     return ag
 
 
@@ -433,6 +520,8 @@ def build_second_profile(spec):
         sin["size"] = ag["size"]
     elif "size_factor" in ag:
         sin["size"] = sin["size"] * ag["size_factor"]
+    if "kind" in ag:
+        sin["kind"] = ag["kind"]
     ip = build_in_profile(sin)
     for k, v in ag.get("set", {}).items():
         setattr(ip, k, v)
@@ -460,7 +549,7 @@ def gen_case(rng, hook_names=()):
         spec_in["reads"] = reads
     spec = {"in": spec_in, "units": units, "model": model}
     if rng.random() < AGAIN_SHARE:
-        spec["again"] = gen_again(rng, spec_in, model, three)
+        spec["again"] = gen_again(rng, spec_in, model, three, units)
         if rng.random() < 0.12 and model != "flow_stress":
             # the first billet's description is incomplete (no flow stress): the first solve is aborted inside the first
             # roll pass, the caller completes the profile and solves the same sequence again
@@ -475,6 +564,9 @@ AGAIN_SHARE = 0.15
 N_QUICK = 330
 AGAIN_CORPUS = {"set": {"temperature": 1350.0, "length": 2, "t": 7.25, "batch": "B-17", "flow_stress": 80e6},
                 "drop": ["density"], "size_factor": 1.01}
+# ... and on ANOTHER billet: 6 % smaller, arriving later and pre-strained (what the units and their helper objects - the
+# working rolls - remembered of the first billet's geometry is out of date by far more than the iteration precision)
+AGAIN_CORPUS_OTHER = {"set": {"length": 2.0, "t": 3.0, "strain": 0.2}, "drop": [], "size_factor": 0.94}
 
 
 CORPUS = [
@@ -696,6 +788,11 @@ def check_tree(seq, prec_of, viol, count, root_names_of, given=None, returned=No
                 sd = sum(d.duration for d in subs)
                 if abs(sd - Dd) > tol * max(abs(Dd), 1e-300):
                     viol("disk-duration-sum", f"{where}: disk durations add up to {sd}, parent duration {Dd}")
+                # "the same chaining holds for disk elements": the time the last disk element delivers is the time
+                # the unit delivers (they differ by duration - sum of the disk durations; + rounding of t itself)
+                t_last = subs[-1].out_profile.t
+                if abs(t_out - t_last) > tol * max(abs(Dd), 1e-300) + 1e-9 * max(abs(t_out), abs(t_last)):
+                    viol("disk-time-end", f"{where}: the last disk element delivers t {t_last}, the unit delivers t {t_out}")
                 if L is not None:
                     sl = sum(d.length for d in subs)
                     if abs(sl - L) > tol * max(abs(L), 1e-300):
@@ -951,13 +1048,16 @@ class time_limit:
     """a sequence made pathological by a change of the code under test (nested iteration loops that no longer
     converge: 100 x 100 x 100 bodies) must not stall the check: the solve is abandoned and counted"""
 
+    def __init__(self, limit=None):
+        self.limit = limit
+
     def __enter__(self):
         import signal
 
         def _raise(signum, frame):
             raise SolveTimeout()
         self.old = signal.signal(signal.SIGALRM, _raise)
-        signal.setitimer(signal.ITIMER_REAL, SOLVE_LIMIT_S[0])
+        signal.setitimer(signal.ITIMER_REAL, min(SOLVE_LIMIT_S[0], self.limit or SOLVE_LIMIT_S[0]))
         return self
 
     def __exit__(self, *a):
@@ -977,17 +1077,51 @@ def solve_case(spec, count=None, reads=True, out=None):
     if out is not None:     # the hook cache of the object that is handed over (an input of the hand-over model)
         out["seq"] = seq
         out["cache"] = {n: getattr(ip, n) for n in sorted(type(ip).__hooks__) if ip.has_cached(n) and not ip.has_set(n)}
-    with RotatorCapture() as cap, time_limit():
+    import time
+    t0 = time.monotonic()
+    with RotatorCapture() as cap, RefreshTrace(out.setdefault("refresh", {}) if out is not None else {}), time_limit():
         ret = seq.solve(ip)
     if out is not None:
         out["returned"] = ret
+        out["wall"] = time.monotonic() - t0
     return seq, ip, cap.by_pass
 
 
-def solve_again(seq, spec, out):
-    """the second solve of the same sequence object on `build_second_profile(spec)`; exceptions of pyroll propagate"""
+def _flat_units(seq):
+    """the units of a built sequence in the order of `_flat(spec["units"])`"""
+    from pyroll.core import PassSequence
+    out = []
+    for u in seq.units:
+        out += _flat_units(u) if isinstance(u, PassSequence) else [u]
+    return out
+
+
+def reconfigure(seq, reconf):
+    """what a user does with a line that was solved already: change a setting (an explicit value given to the
+    constructor) of some units - `[index in the flat unit list, attribute, value]`; `attr*` = multiply the current value;
+    `rotational_frequency` belongs to the working roll of the pass"""
+    if not reconf:
+        return
+    flat = _flat_units(seq)
+    for i, attr, val in reconf:
+        u = flat[i]
+        if attr == "rotational_frequency":
+            u.roll.rotational_frequency = val
+        elif attr.endswith("*"):
+            setattr(u, attr[:-1], u.__dict__[attr[:-1]] * val)
+        else:
+            setattr(u, attr, val)
+
+
+def solve_again(seq, spec, out, first_wall=None):
+    """the second solve of the same sequence object on `build_second_profile(spec)`; exceptions of pyroll propagate.
+    `first_wall`: what the first solve of this sequence took - the second one is abandoned (and counted) after
+    max(4 s, 20 x that): another billet may not touch the rolls of the first pass at all, the contact length is NaN then
+    and NaN results never meet the convergence test (all nested loops run to their maximum iteration count)"""
     ip2 = build_second_profile(spec)
-    with RotatorCapture() as cap, time_limit():
+    reconfigure(seq, spec["again"].get("reconf", []))
+    with RotatorCapture() as cap, RefreshTrace(out.setdefault("refresh", {})), \
+            time_limit(None if first_wall is None else max(4.0, 20 * first_wall)):
         ret = seq.solve(ip2)
     out["returned"] = ret
     return ip2, cap.by_pass
@@ -1133,10 +1267,13 @@ def _examine(ctx, spec, twin, count, model=False):
                 res["line"] = (" ".join(["H", "_", parts1[0]] + parts1[1]), parts1[2])
             except LookupError as ex:
                 count("model-skipped:" + str(ex)[:40])
+    if res["ok"] and model:
+        res["slines"] = refresh_lines(got.get("refresh", {}))       # replaced below when a second solve follows
+        res["observe"] = seq
     retry = spec["in"].get("flow_stress") is False and "flow_stress" in spec.get("again", {}).get("set", {})
     if spec.get("again") and seq is not None and (res["ok"] or retry):
         # ---- the same sequence object solved again on the changed profile ------------------------------------------
-        got2 = {}
+        got2 = {"refresh": got.setdefault("refresh", {})}      # the caches persist: one history per pass object
 
         def viol2(key, what):
             key = "again-" + key
@@ -1147,16 +1284,20 @@ def _examine(ctx, spec, twin, count, model=False):
             found.append((key, "second solve of the same sequence, " + ("after a first solve that raised, " if not res["ok"] else "")
                           + f"on the profile changed by {spec['again']}: " + what, robj))
         try:
-            ip2, rot2 = solve_again(seq, spec, got2)
+            ip2, rot2 = solve_again(seq, spec, got2, got.get("wall"))
         except SolveTimeout:
             count("second-solve:abandoned:time-limit")
+            res["slines"] = []          # the history of the caches is incomplete
             return res
         except Exception as ex:
             rc = _root_cause(ex)
             if not _in_pyroll(rc):
                 raise
             count("second-solve:raised:" + type(rc).__name__ + ("" if res["ok"] else ":after-aborted-first"))
+            res["slines"] = []
             return res
+        if res["ok"] and model:
+            res["slines"] = refresh_lines(got.get("refresh", {}))
         count("second-solve:solved" + ("" if res["ok"] else ":after-aborted-first"))
         check_tree(seq, prec_of, viol2, lambda k, n=1: None, root_names_of, given=ip2, returned=got2.get("returned"))
         check_callers_values(seq, ip2, got2.get("returned"), all_root_names, viol2, count, prefix="")
@@ -1171,6 +1312,168 @@ def _examine(ctx, spec, twin, count, model=False):
         elif model:
             count("model-skipped:second solve after an aborted first one")
     return res
+
+
+def refresh_lines(store):
+    """the cache history of every roll pass with disk elements of one case -> [(`S` line, what was observed)]"""
+    out = []
+    for rec in store.values():
+        u = rec["unit"]
+        solves = rec["solves"][:40]
+        if not u.subunits or not solves or any(len(sv) == 0 for sv in solves):
+            continue
+        out.append((f"S {type(u).__qualname__} roll contact_length " + ",".join(str(len(sv)) for sv in solves),
+                    {"count": len(u.subunits), "solves": solves, "label": u.label}))
+    return out
+
+
+def compare_refresh(ctx, out_lines, expects):
+    """(K) the cache model (`Refresh.solves` on the generated `reevaluate_cache` chain of the pass' class) against what the
+    disk elements of real roll passes read: the model answers, per solve and iteration, the index of the state the value
+    of `roll.contact_length` the disk elements read was computed from; the harness recorded, per solve and iteration, the
+    disk length and what the roll's cache held after `reevaluate_cache` - the value of that state index."""
+    for line, (spec, e) in zip(out_lines, expects):
+        try:
+            got = [[int(x) for x in part.split(",")] for part in line.strip().split(";")]
+        except ValueError:
+            ctx.disagreement(f"cache model answers {line[:80]!r} for roll pass {e['label']}", {"spec": spec})
+            continue
+        if [len(g) for g in got] != [len(sv) for sv in e["solves"]]:
+            ctx.disagreement(f"cache model: {[len(g) for g in got]} iterations, implementation {[len(sv) for sv in e['solves']]}",
+                             {"spec": spec})
+            continue
+        idx, value_at, bad = 0, {}, None
+        for k, sv in enumerate(e["solves"]):
+            idx += 1                                    # init_solve: a new state
+            for i, (disk_length, roll_value) in enumerate(sv):
+                read = got[k][i]
+                if read >= idx:
+                    ctx.count("cache-model:first-read(computed when read)")
+                elif read not in value_at or value_at[read] is None or disk_length is None:
+                    ctx.count("cache-model:read-not-observable")
+                elif disk_length != value_at[read] / e["count"]:
+                    bad = bad or (f"roll pass {e['label']}, solve #{k + 1} of this object, iteration {i + 1}: the disk elements "
+                                  f"have length {disk_length!r}; the model says they read the contact length of state {read}, "
+                                  f"{value_at[read]!r} / {e['count']} = {value_at[read] / e['count']!r}")
+                else:
+                    ctx.count("cache-model:read-agrees")
+                value_at[idx] = roll_value              # what `reevaluate_cache` of this iteration left in the roll's cache
+                idx += 1                                # get_root_hook_results: a new state
+        if bad:
+            ctx.disagreement("cache model vs implementation: " + bad, {"spec": spec})
+        else:
+            ctx.validated()
+
+
+class _Marked(float):
+    """a float of the same value but another identity: put into a hook cache to see whether the entry is replaced"""
+
+
+def observe_reevaluate(obj):
+    """what does `obj.reevaluate_cache()` do on this real object?  -> (set of tokens like the model's `own`,
+    `refresh:<attr>`, `reset:<attr>`; set of the tokens that could be observed at all)"""
+    from pyroll.core.hooks import HookHost
+    targets = [("own", obj)] + [("refresh:" + a, v) for a, v in obj.__dict__.items()
+                                if isinstance(v, HookHost) and not a.startswith("_")]
+    marks = []
+    for tag, o in targets:
+        for k, v in o.__cache__.items():
+            if isinstance(v, float) and v == v:
+                m = _Marked(v)
+                o.__cache__[k] = m
+                marks.append((tag, o, k, m))
+                break
+    filled = {a for a, v in obj.__dict__.items() if a.startswith("_") and not a.startswith("__") and v is not None
+              and not isinstance(v, (int, float, str, dict, list)) and not callable(v) and a not in ("_unit", "_parent", "_subunits")}
+    obj.reevaluate_cache()
+    seen = {tag for (tag, o, k, m) in marks if o.__cache__.get(k) is not m}
+    seen |= {"reset:" + a for a in filled if obj.__dict__.get(a) is None}
+    return seen, {tag for (tag, _, _, _) in marks} | {"reset:" + a for a in filled}
+
+
+def _runtime_classes():
+    """{qualified name: class} of every class defined in pyroll.core (module level and nested)"""
+    import importlib
+    import inspect
+    import pkgutil
+    import pyroll.core
+    seen = {}
+    stack = []
+    for m in pkgutil.walk_packages(pyroll.core.__path__, "pyroll.core."):
+        mod = importlib.import_module(m.name)
+        stack += [o for o in vars(mod).values() if inspect.isclass(o)]
+    while stack:
+        c = stack.pop()
+        if not getattr(c, "__module__", "").startswith("pyroll.core") or c.__qualname__ in seen:
+            continue
+        seen[c.__qualname__] = c
+        stack += [o for o in vars(c).values() if inspect.isclass(o)]
+    return seen
+
+
+def refresh_correspondence(ctx, observed):
+    """(K) of the generated class hierarchy and `reevaluate_cache` chains: the linearisation the translator computed from
+    the bases in the source vs `cls.__mro__`; the helper class vs the class of the real helper object; the model's effect
+    list per class (`R` lines) vs what `reevaluate_cache()` was SEEN to do on one real solved object of that class
+    (`observed`: class name -> (seen, observable), see `observe_reevaluate`)"""
+    info = getattr(ctx, "refresh", None)
+    if info is None:
+        try:
+            info = c06_refresh.emit(core.REPO, [])[1]
+        except Exception:
+            return
+    rt = _runtime_classes()
+    for q, m in info.get("emitted_mros", []):
+        c = rt.get(q)
+        real = None if c is None else [k.__qualname__ for k in c.__mro__ if k.__module__.startswith("pyroll.core")]
+        if real == m:
+            ctx.validated()
+        else:
+            ctx.disagreement(f"MRO of {q}: computed from the source {m}, at run time {real}", {"class": q})
+    for cls, attr, hcls in info.get("helper_class", []):
+        for name, (seen, observable, helper_types) in observed.items():
+            if name == cls and attr in helper_types:
+                if helper_types[attr] == hcls:
+                    ctx.validated()
+                else:
+                    ctx.disagreement(f"helper {cls}.{attr}: class {hcls} read from the source, {helper_types[attr]} at run time",
+                                     {"class": cls})
+    names = sorted(observed)
+    if not names:
+        return
+    out = ctx.lean_model(MODEL, ["R " + n for n in names])
+    for n, line in zip(names, out):
+        seen, observable, _ = observed[n]
+        toks = set(line.split()) - {"-"}
+        model = {t for t in toks if t in observable}
+        ctx.count("reevaluate_cache-observed:" + n)
+        if line.strip() == "no-mro" or any(t.startswith("unknown:") for t in toks) or model != seen:
+            ctx.disagreement(f"{n}.reevaluate_cache(): the model says {line.strip()!r}; on a real solved object "
+                             f"{sorted(seen)} of the observable {sorted(observable)} happened", {"class": n})
+        else:
+            ctx.validated()
+
+
+def collect_observations(seq, observed):
+    """one real solved object per class (units, disk elements, rolls): what its `reevaluate_cache()` does"""
+    from pyroll.core.hooks import HookHost
+
+    def walk(u):
+        yield u
+        for a, v in u.__dict__.items():
+            if isinstance(v, HookHost) and not a.startswith("_") and a not in ("in_profile", "out_profile"):
+                yield v
+        for sub in u.subunits:
+            yield from walk(sub)
+    for o in walk(seq):
+        n = type(o).__qualname__
+        if n not in observed and not type(o).__module__.startswith("pyroll.core"):
+            continue
+        if n not in observed:
+            helper_types = {a: type(v).__qualname__ for a, v in o.__dict__.items()
+                            if isinstance(v, HookHost) and not a.startswith("_")}
+            seen, observable = observe_reevaluate(o)
+            observed[n] = (seen, observable, helper_types)
 
 
 def run_case(ctx, spec, lines, pending, twin=False):
@@ -1200,6 +1503,12 @@ def run_case(ctx, spec, lines, pending, twin=False):
             if ln is not None:
                 lines.append(ln[0])
                 pending.append((spec, ln[1], tag))
+        if hasattr(ctx, "refresh_lines"):
+            for (ln, e) in res.get("slines") or []:
+                ctx.refresh_lines.append(ln)
+                ctx.refresh_expect.append((spec, e))
+            if res.get("observe") is not None and len(ctx.refresh_observed) < 40:
+                collect_observations(res["observe"], ctx.refresh_observed)
     return res["ok"]
 
 
@@ -1274,12 +1583,14 @@ def run(ctx):
                                                       "clauses " + ", ".join(BRANCH_KEYS) + " are only counted"),
                                             None: "unknown (init_solve left the translatable subset)"}[ctx.reuse_branch]
     lines, pending = [], []
+    ctx.refresh_lines, ctx.refresh_expect, ctx.refresh_observed = [], [], {}
     solved = 0
     hook_names = profile_hook_names()
     # every corpus layout as it is - and the same sequence object solved again on a changed billet -, and once more after
     # the caller has looked at every hook of the incoming profile
     corpus = [dict(spec, again=AGAIN_CORPUS) for spec in CORPUS] \
-        + [dict(spec, **{"in": dict(spec["in"], reads=hook_names)}) for spec in CORPUS]
+        + [dict(spec, **{"in": dict(spec["in"], reads=hook_names)}) for spec in CORPUS] \
+        + [dict(spec, again=AGAIN_CORPUS_OTHER) for spec in CORPUS]
     for spec in corpus:
         ok = run_case(ctx, spec, lines, pending, twin=True)
         ctx.case(["corpus", spec], nontrivial=ok)
@@ -1307,6 +1618,13 @@ def run(ctx):
                     ctx.count("again:changed-or-added:" + k)
                 for k in spec["again"]["drop"]:
                     ctx.count("again:removed:" + k)
+                if "size" in spec["again"]:
+                    rel = abs(spec["again"]["size"] / spec["in"]["size"] - 1)
+                    ctx.count("again:size:" + ("within 1.5 %" if rel <= 0.0151 else "another billet (up to 11 %)"))
+                if "kind" in spec["again"]:
+                    ctx.count("again:another-shape")
+                for (_, attr, _) in spec["again"].get("reconf", []):
+                    ctx.count("again:reconfigured:" + attr)
             nr = len(spec["in"].get("reads", []))
             ctx.count("prior-reads:" + ("none" if nr == 0 else "all" if nr == len(hook_names) else "some"))
             for u in flat:
@@ -1319,11 +1637,14 @@ def run(ctx):
                 ctx.sample(spec)
     ctx.notes["sequences_solved"] = solved
     excluded_point(ctx)
+    used_unit_reconfigured(ctx)
     if model:
         ilines, iexpect = init_solve_histories(ctx)
-        out = ctx.lean_model(MODEL, lines + ilines)
+        out = ctx.lean_model(MODEL, lines + ilines + ctx.refresh_lines)
         compare_model(ctx, out[:len(lines)], pending)
-        compare_init_solve(ctx, out[len(lines):], iexpect)
+        compare_init_solve(ctx, out[len(lines):len(lines) + len(ilines)], iexpect)
+        compare_refresh(ctx, out[len(lines) + len(ilines):], ctx.refresh_expect)
+        refresh_correspondence(ctx, ctx.refresh_observed)
 
 
 def init_solve_histories(ctx):
@@ -1494,6 +1815,37 @@ def excluded_point(ctx):
         ctx.notes.setdefault("excluded_point", {})[label] = (
             f"solve succeeds without complaint; durations {[round(float(d), 6) for d in durs]}; t along the profiles "
             f"{[round(float(t), 6) for t in ts]} ({'goes back in time' if dec else 'monotone'}); out t = in t + duration still holds")
+
+
+def used_unit_reconfigured(ctx):
+    """Outside the quantifier of the statement (layouts, incoming profiles, plugged-in models - not edits of a used object),
+    recorded like the excluded point: `disk_element_count` changed on a unit that was solved before.  The disk elements are
+    created once (`DiskElementUnit.init_solve`: `if not self._subunits`), their length is `… / disk_element_count` of the NEW
+    count: the old number of disk elements no longer adds up to the parent.  A report, not a violation."""
+    spec = {"in": {"kind": "round", "size": 30e-3, "length": 1, "strain": 0, "t": None}, "model": "none",
+            "units": [{"type": "pass", "groove": "oval", "scale": 1.0, "disks": 3},
+                      {"type": "transport", "duration": 1, "disks": 2}]}
+    try:
+        seq, ip, _ = solve_case(spec)
+        for u in seq.units:
+            u.disk_element_count = 5
+        with time_limit():
+            seq.solve(build_in_profile(spec["in"]))
+        rows = []
+        for u in seq.units:
+            subs = list(u.subunits)
+            rows.append(f"{type(u).__name__}: disk_element_count 5, {len(subs)} disk elements, their lengths add up to "
+                        f"{sum(d.length for d in subs) / u.length:.3f} of the unit's length")
+        ctx.notes["used_unit_disk_count_changed"] = "; ".join(rows)
+        ctx.count("observation:disk-count-changed-on-used-unit:" +
+                  ("elements-not-recreated" if any(len(list(u.subunits)) != 5 for u in seq.units) else "elements-recreated"))
+    except SolveTimeout:
+        ctx.count("observation:disk-count-changed-on-used-unit:abandoned:time-limit")
+    except Exception as ex:
+        rc = _root_cause(ex)
+        if not _in_pyroll(rc):
+            raise
+        ctx.count("observation:disk-count-changed-on-used-unit:raises-" + type(rc).__name__)
 
 
 def replay(ctx, data):
